@@ -12,6 +12,7 @@ import (
 	"encoding/hex"
 	"io"
 	"net/url"
+	"strconv"
 	"strings"
 
 	"github.com/cnotch/ipchub/utils/scan"
@@ -102,10 +103,15 @@ func ReadRequest(r *bufio.Reader) (*Request, error) {
 
 	// 读取Body
 	cl := req.Header.Int(FieldContentLength)
+	if cl > maxContentLength { // 拒绝荒谬的长度，避免按对端声明的大小分配内存
+		return nil, &badStringError{"Content-Length over the maximum length", strconv.Itoa(cl)}
+	}
 	if cl > 0 {
 		// 读取 n 字节的字串Body
 		body := make([]byte, cl)
-		_, err = io.ReadFull(r, body)
+		if _, err = io.ReadFull(r, body); err != nil {
+			return nil, err
+		}
 		req.Body = string(body)
 	}
 	return req, nil
